@@ -174,7 +174,11 @@ def run_property(pid: str, tier: str, seed: int, write_lock=False, verbose=False
     for g in ground:
         ent = coarse.setdefault(g.oid, {"instances": 0, "unsat": 0, "sat": 0, "unknown": 0, "solvers": set()})
         ent["instances"] += 1
-        ent["unsat" if g.ok else "sat"] += 1
+        if g.ok is None:            # a structural rule that does not recognise the code's shape: undecided
+            ent["unknown"] += 1
+            undecided.append({"obligation": g.oid, "reason": "structural rule not applicable to this shape: " + g.detail[:200]})
+        else:
+            ent["unsat" if g.ok else "sat"] += 1
         ent["solvers"].add(g.backend)
         by_backend[g.backend] = by_backend.get(g.backend, 0) + (1 if g.ok else 0)
 
@@ -264,7 +268,7 @@ def run_property(pid: str, tier: str, seed: int, write_lock=False, verbose=False
             else:
                 undecided.append({"obligation": cid, "reason": "refuted, not in lock, no replay"})
     for g in ground:
-        if not g.ok:
+        if g.ok is False:
             kf = next((k for k in known_here if k.get("obligation") == g.oid), None)
             if kf is not None:
                 known_hits.append(kf)
